@@ -1396,11 +1396,19 @@ class Evaluator:
             raise Undecided(f'too many arguments for {func.qualname}')
         for n, v in zip(pos, args):
             env[n] = v
+        if a.vararg is not None:
+            env[a.vararg.arg] = Tup(args[len(pos):])
+        allp = pos + [x.arg for x in a.kwonlyargs]
+        extra: Dict[Any, AV] = {}
         for k, v in kwargs.items():
             if k in env:
                 raise Undecided(f'duplicate argument {k}')
+            if k not in allp and a.kwarg is not None:
+                extra[('c', k)] = v
+                continue
             env[k] = v
-        allp = pos + [x.arg for x in a.kwonlyargs]
+        if a.kwarg is not None:
+            env[a.kwarg.arg] = DictVal(extra)
         for n in allp:
             if n not in env:
                 d = func.default_of(n)
@@ -1884,7 +1892,7 @@ class Evaluator:
     # ----------------------------------------------------------------------------------
     # statements
     # ----------------------------------------------------------------------------------
-    def assign(self, target: ast.AST, v: AV, st: State, ctx: Ctx) -> None:
+    def assign(self, target: ast.AST, v: AV, st: State, ctx: Ctx) -> Optional[AV]:
         if isinstance(target, ast.Name):
             st.env[target.id] = v
         elif isinstance(target, (ast.Tuple, ast.List)):
@@ -1915,7 +1923,9 @@ class Evaluator:
             if isinstance(base, Inst):
                 setter = base.cls and self._find_setter(base.cls, target.attr)
                 if setter is not None:
-                    self.call_func(setter, [v], {}, st, ctx, self_val=base)
+                    r = self.call_func(setter, [v], {}, st, ctx, self_val=base)
+                    if isinstance(r, Raised) or (isinstance(r, Cond) and any(isinstance(x, Raised) for _p, x in cond_leaves(r))):
+                        return r            # the setter raises: the statement does
                     return
                 st.heap[base.oid][target.attr] = v
             elif isinstance(base, SymObj):
@@ -2111,7 +2121,9 @@ class Evaluator:
             if isinstance(v, Raised):
                 return v
             for t in s.targets:
-                self.assign(t, v, st, ctx)
+                r = self.assign(t, v, st, ctx)
+                if r is not None:
+                    return r
             return v
         if isinstance(s, ast.AnnAssign):
             if s.value is None:
@@ -2119,8 +2131,8 @@ class Evaluator:
             v = self.eval(s.value, st, ctx)
             if isinstance(v, Raised):
                 return v
-            self.assign(s.target, v, st, ctx)
-            return v
+            r = self.assign(s.target, v, st, ctx)
+            return r if r is not None else v
         if isinstance(s, ast.AugAssign):
             cur = self.eval(s.target, st, ctx)
             rhs = self.eval(s.value, st, ctx)
